@@ -18,7 +18,10 @@ write, next-or-close) and the property is stated against the declarative Expecte
    A second, hook-free trace source rides along: Humphrey's own MonitorConfig events for the connection's
    peer address (ConnectionSuccess, ThreadPoolProcessStarted, RequestServed*, RequestTimeout,
    KeepAliveRespected, ConnectionClosed), drained after the client has seen the server's close, must equal
-   MonExpected(model state) for the connection to count as accepted."""
+   MonExpected(model state) for the connection to count as accepted.
+4. CORS (checks/c01_cors.py, spec/cors): TLC explores every order of App/SubApp/Cors builder calls, the
+   generated (builder history, request, expected Access-Control-* headers) vectors are replayed on real Apps of
+   both runtimes and random apps are validated by Trace_Cors."""
 import json
 import os
 import random
@@ -210,6 +213,11 @@ def run(tier, replay):
     ctx.cov["evaluations"] = total_conns
     ctx.cov["traces_validated_against_impl"] = total_conns
     ctx.cov["distinct_nontrivial"] = len(nontrivial)
+
+    # ---- 4. "the matched route's CORS headers": spec/cors (builder-call sequences x requests, both runtimes) ----
+    import c01_cors
+    c01_cors.run_part(ctx, tier)
+
     ctx.cov["rule"] = ("one evaluation = one real loopback connection (script x segmentation x runtime) whose client log was validated by TLC; "
                        "non-trivial = distinct (runtime, request kinds, plan, number of segments) with >= 2 script elements or a split delivery")
     ctx.assumptions += ["Expected(script) in HttpConn.tla is the reading of the property (DESIGN 5a: 400/408 checked for status and close only)",
